@@ -20,6 +20,8 @@ CHECKS = {
          'sampled; tolerance window around expiry; after an observed delivery failure a subscription (and those sharing its connection) is treated as uncertain; housekeeping grace 2.3 s', '6 (C08)'),
  'C09': ('exploration', 'seeded search over operation calls (all kinds, direct/queued, scripted handler outcomes, unknown handles, bursts) x schedules x delivery faults (report delayed past / before the response, dropped, duplicated by middleboxes); legality of the invocation-state sequence per transaction on the provider emission order, completion of the consumer Future against what was delivered',
          'sampled; operation handlers are scripted stubs; a Future is only required to complete if its final report was delivered', '6 (C09)'),
+ 'C10': ('exploration', 'seeded search over sequences of SetContextState calls (through the real consumer/provider stack and SCO worker) and set_location calls (also concurrent) x schedules; association invariants evaluated inside the commit critical section on consecutive history entries',
+         'sampled; uses the tutorial context role provider (the anchored implementation); explicit non-associated proposals keep their value', '6 (C10)'),
 }
 TECH = 'deterministic simulation with fault injection (seeded scheduler + virtual clock + simulated network, fork per run, ddmin replay)'
 
